@@ -24,7 +24,7 @@ TIERS = {
 HAZARD_EVERY = 7          # C10: every 7th run is a hazard program (stale-alias stream)
 MAX_RAW_PER_CHUNK = 12
 MAX_CLASSES = 12
-MAX_MIN_PER_CLASS = 2
+MAX_MIN_PER_CLASS = 4
 MINIMISE_BUDGET_S = 120
 BALLAST = 1100
 GIANT_EVERY = 1500       # every 1500th run uses one array beyond 2**16 cells
@@ -343,6 +343,7 @@ def main(prop, tier, runs=None, k=None, write=True):
 
     # minimise a few raw violations per class
     violations = []
+    irreproducible = []
     by_class = collections.OrderedDict()
     for case in lists["__raw__"]:
         by_class.setdefault(div_class(case, case["divergence"]), []).append(case)
@@ -354,7 +355,10 @@ def main(prop, tier, runs=None, k=None, write=True):
                 break       # enough minimised witnesses; never let reporting run into the command's timeout
             small, d, used = minimise(case, budget=1500 if time.time() - t_min < MINIMISE_BUDGET_S / 2 else 300)
             if d is None:
-                raise pool.HarnessFailure(f"divergence did not reproduce in the parent process: {case['origin']}")
+                # seen in a worker but not here: the behaviour depends on process-wide state of the library that
+                # the case does not carry (only possible for code that has such state); try the other cases
+                irreproducible.append(f"did not reproduce in the parent process: {case['origin']}")
+                continue
             key = json.dumps([small["program"], small["a"], small["b"]], sort_keys=True)
             if key in seen:
                 continue
@@ -363,9 +367,22 @@ def main(prop, tier, runs=None, k=None, write=True):
             path = evidence.save_replay(small, prop, tag)
             ok, out = replay_fresh(path)
             if not ok:
-                raise pool.HarnessFailure(f"minimised case {path} does not reproduce in a fresh interpreter:\n{out}")
+                # The shrunk case depends on state of the process that shrank it (a library with process-wide
+                # state).  Fall back to the case exactly as it was found; if even that does not reproduce in a
+                # fresh interpreter it is not reported (a replay file must reproduce), only counted.
+                raw = dict(case)
+                path = evidence.save_replay(raw, prop, tag + "-unminimised")
+                ok, out2 = replay_fresh(path)
+                if not ok:
+                    irreproducible.append(out2[-600:])
+                    continue
+                small, d = raw, raw.get("divergence")
             violations.append((path, small, d))
 
+    if irreproducible and not violations:
+        raise pool.HarnessFailure("divergences were observed but none of them reproduces in a fresh interpreter "
+                                  "(behaviour depends on process-wide state that a replay file cannot carry):\n"
+                                  + irreproducible[0])
     wall = time.time() - t0
     inj = {k2[4:]: v for k2, v in sorted(tot.items()) if k2.startswith("inj:")}
     kinds = {k2[5:]: v for k2, v in sorted(tot.items()) if k2.startswith("kind:")}
